@@ -196,7 +196,7 @@ oracle = DESIGN.md Appendix B (transcribed from the rustdoc on the wire fields)"
     let mut rng = Rng::derive(seed, 12, 0);
 
     // ---- layout --------------------------------------------------------------------------------------
-    let n_layout = ctx.tier.pick(30_000, 3_000_000);
+    let n_layout = ctx.tier.pick(100_000, 3_000_000);
     for i in 0..n_layout {
         if i % 16 == 1 {
             crate::props::poison::run(i as u64);
@@ -486,7 +486,7 @@ oracle = DESIGN.md Appendix B (transcribed from the rustdoc on the wire fields)"
     }
 
     // ---- alarm_messages(): non-zero codes, message order ----------------------------------------------------
-    let n = ctx.tier.pick(50_000, 5_000_000);
+    let n = ctx.tier.pick(150_000, 5_000_000);
     for i in 0..n {
         if i % 16 == 1 {
             crate::props::poison::run(i as u64);
